@@ -233,8 +233,16 @@ def main(chk):
     for ix, gk in case['groups']:
       groups.setdefault(tuple(gk), []).append(tuple(ix))
     for trial0 in range(12 if thorough else 8):
-      trial = 2 if trial0 >= 2 else trial0          # trials >= 2: badly conditioned (large offset, tiny spread)
+      trial = 2 if trial0 >= 6 else min(trial0, 1)          # trials >= 6: badly conditioned (large offset, tiny spread)
+      # renderings of the affine flags and of the variance formula (trials < 6)
+      us, ub = [(True, True), (True, True), (True, False), (False, True), (False, False), (True, False)][trial0 % 6] if trial0 < 6 else (True, True)
+      fast = trial0 % 2 == 0
+      if kind == 'rms':
+        ub = False
       x = ints((2, 3, 4), -5, 6).astype(np.float64)
+      cplx = trial0 == 5          # rendering: complex activations (variance = mean |x - mu|^2)
+      if cplx:
+        x = x + 1j * ints((2, 3, 4), -5, 6)
       if trial == 2:
         x = np.full((2, 3, 4), 1000.0 + 37.0 * trial0) + rs.rand(2, 3, 4) * 1e-3 * (trial0 % 3)
       scale, bias = ints((4,), 1, 4).astype(np.float64), ints((4,)).astype(np.float64)
@@ -243,46 +251,49 @@ def main(chk):
       for gk, members in groups.items():
         vals = np.array([x[m] for m in members])
         mu = 0.0 if kind == 'rms' else vals.mean()
-        var = (vals ** 2).mean() if kind == 'rms' else ((vals - mu) ** 2).mean()
+        var = (np.abs(vals) ** 2).mean() if kind == 'rms' else (np.abs(vals - mu) ** 2).mean()
         means[gk], vars_[gk] = mu, var
         for m in members:
-          exp[m] = (x[m] - mu) / np.sqrt(var + eps) * scale[m[2]] + (0.0 if kind == 'rms' else bias[m[2]])
-      key = f'C12:norm:{kind}:trial={trial0}'
-      params = {'scale': jnp.asarray(scale, jnp.float32)} if kind == 'rms' else {'scale': jnp.asarray(scale, jnp.float32), 'bias': jnp.asarray(bias, jnp.float32)}
-      xj = jnp.asarray(x, jnp.float32)
+          exp[m] = (x[m] - mu) / np.sqrt(var + eps) * (scale[m[2]] if us else 1.0) + (bias[m[2]] if ub else 0.0)
+      key = f'C12:norm:{kind}:trial={trial0}' + (':complex' if cplx else '') + ('' if (us, ub, fast) == (True, kind != 'rms', True) else f':scale={us}:bias={ub}:fast_variance={fast}')
+      params = {**({'scale': jnp.asarray(scale, jnp.float32)} if us else {}), **({'bias': jnp.asarray(bias, jnp.float32)} if ub else {})}
+      fl = dict(use_scale=us, use_fast_variance=fast) if kind == 'rms' else dict(use_scale=us, use_bias=ub, use_fast_variance=fast)
+      xj = jnp.asarray(x, jnp.complex64 if cplx else jnp.float32)
       try:
         upd = None
         if kind == 'layer':
-          y = nn.LayerNorm(epsilon=eps).apply({'params': params}, xj)
-          n2 = nnx.LayerNorm(4, epsilon=eps, rngs=nnx.Rngs(0))
+          y = nn.LayerNorm(epsilon=eps, **fl).apply({'params': params}, xj)
+          n2 = nnx.LayerNorm(4, epsilon=eps, **fl, rngs=nnx.Rngs(0))
         elif kind == 'layer_axes12':
-          y = nn.LayerNorm(epsilon=eps, reduction_axes=(1, 2)).apply({'params': params}, xj)
-          n2 = nnx.LayerNorm(4, epsilon=eps, reduction_axes=(1, 2), rngs=nnx.Rngs(0))
+          y = nn.LayerNorm(epsilon=eps, reduction_axes=(1, 2), **fl).apply({'params': params}, xj)
+          n2 = nnx.LayerNorm(4, epsilon=eps, reduction_axes=(1, 2), **fl, rngs=nnx.Rngs(0))
         elif kind == 'rms':
-          y = nn.RMSNorm(epsilon=eps).apply({'params': params}, xj)
-          n2 = nnx.RMSNorm(4, epsilon=eps, rngs=nnx.Rngs(0))
+          y = nn.RMSNorm(epsilon=eps, **fl).apply({'params': params}, xj)
+          n2 = nnx.RMSNorm(4, epsilon=eps, **fl, rngs=nnx.Rngs(0))
         elif kind == 'instance':
-          y = nn.InstanceNorm(epsilon=eps).apply({'params': params}, xj)
+          y = nn.InstanceNorm(epsilon=eps, **fl).apply({'params': params}, xj)
           n2 = None
         elif kind in ('gsize1', 'gsize2', 'gsize4'):
           gs = int(kind[5:])
-          y = nn.GroupNorm(num_groups=None, group_size=gs, epsilon=eps).apply({'params': params}, xj)
-          n2 = nnx.GroupNorm(4, num_groups=None, group_size=gs, epsilon=eps, rngs=nnx.Rngs(0))
+          y = nn.GroupNorm(num_groups=None, group_size=gs, epsilon=eps, **fl).apply({'params': params}, xj)
+          n2 = nnx.GroupNorm(4, num_groups=None, group_size=gs, epsilon=eps, **fl, rngs=nnx.Rngs(0))
         elif kind in ('group1', 'group2'):
-          y = nn.GroupNorm(num_groups=1 if kind == 'group1' else 2, epsilon=eps).apply({'params': params}, xj)
-          n2 = nnx.GroupNorm(4, num_groups=1 if kind == 'group1' else 2, epsilon=eps, rngs=nnx.Rngs(0))
+          y = nn.GroupNorm(num_groups=1 if kind == 'group1' else 2, epsilon=eps, **fl).apply({'params': params}, xj)
+          n2 = nnx.GroupNorm(4, num_groups=1 if kind == 'group1' else 2, epsilon=eps, **fl, rngs=nnx.Rngs(0))
         else:
-          bn = nn.BatchNorm(use_running_average=False, momentum=0.5, epsilon=eps)
+          bn = nn.BatchNorm(use_running_average=False, momentum=0.5, epsilon=eps, **fl)
           stats = {'mean': jnp.asarray([1.0, 2.0, 3.0, 4.0]), 'var': jnp.asarray([2.0, 2.0, 4.0, 4.0])}
           y, upd = bn.apply({'params': params, 'batch_stats': stats}, xj, mutable=['batch_stats'])
-          n2 = nnx.BatchNorm(4, use_running_average=False, momentum=0.5, epsilon=eps, rngs=nnx.Rngs(0))
+          n2 = nnx.BatchNorm(4, use_running_average=False, momentum=0.5, epsilon=eps, **fl, rngs=nnx.Rngs(0))
           n2.mean.value, n2.var.value = stats['mean'], stats['var']
       except Exception as e:
         chk.violation(key, f'raised {type(e).__name__}: {str(e)[:160]}', case)
         continue
       chk.count(key)
       tol = 1e-4
-      y = np.asarray(y, np.float64)
+      y = np.asarray(y, np.complex128 if cplx else np.float64)
+      if cplx:
+        upd = None          # (running statistics of complex activations are not part of the specification)
       # (trial 2 is badly conditioned: float32 fast variance is inaccurate there by nature; only finiteness and the documented
       #  clipping of round-off-negative variance are required)
       if not np.all(np.isfinite(y)) or (trial != 2 and not np.allclose(y, exp, rtol=tol, atol=tol)):
@@ -297,24 +308,28 @@ def main(chk):
           chk.violation(key + ':running', f'running statistics {gm.tolist()} / {gv.tolist()} differ from momentum*old + (1-momentum)*batch '
                                           f'{em.tolist()} / {ev.tolist()}', {'kind': kind})
         # inference mode uses the running statistics unchanged
-        yi = np.asarray(nn.BatchNorm(use_running_average=True, epsilon=eps).apply({'params': params, 'batch_stats': stats}, xj), np.float64)
-        ei = (x - np.array([1, 2, 3, 4.0])) / np.sqrt(np.array([2, 2, 4, 4.0]) + eps) * scale + bias
+        yi = np.asarray(nn.BatchNorm(use_running_average=True, epsilon=eps, **fl).apply({'params': params, 'batch_stats': stats}, xj), np.float64)
+        ei = (x - np.array([1, 2, 3, 4.0])) / np.sqrt(np.array([2, 2, 4, 4.0]) + eps) * (scale if us else 1.0) + (bias if ub else 0.0)
         if trial != 2 and not np.allclose(yi, ei, rtol=tol, atol=tol):
           chk.violation(key + ':inference', 'BatchNorm in inference mode does not use the running statistics unchanged', {'kind': kind})
       if n2 is not None:
-        n2.scale.value = jnp.asarray(scale, jnp.float32)
-        if hasattr(n2, 'bias') and kind != 'rms':
+        if us:
+          n2.scale.value = jnp.asarray(scale, jnp.float32)
+        if ub and kind != 'rms':
           n2.bias.value = jnp.asarray(bias, jnp.float32)
-        y2 = np.asarray(n2(xj), np.float64)
+        y2 = np.asarray(n2(xj), np.complex128 if cplx else np.float64)
         if trial != 2 and not np.allclose(y2, y, rtol=1e-5, atol=1e-5):
           chk.violation(key + ':nnx', f'nnx {kind} norm differs from the Linen layer with the same parameters (max {np.abs(y2 - y).max():.3g})', {'kind': kind})
         if upd is not None and (not np.allclose(np.asarray(n2.mean.value), gm, rtol=1e-5, atol=1e-5) or not np.allclose(np.asarray(n2.var.value), gv, rtol=1e-4, atol=1e-4)):
           chk.violation(key + ':nnx', 'nnx.BatchNorm running statistics differ from Linen', {'kind': kind})
         if upd is not None:
           # the mode chosen at call time overrides the attribute: a module in eval mode called with use_running_average=False
-          n3 = nnx.BatchNorm(4, use_running_average=True, momentum=0.5, epsilon=eps, rngs=nnx.Rngs(0))
+          n3 = nnx.BatchNorm(4, use_running_average=True, momentum=0.5, epsilon=eps, **fl, rngs=nnx.Rngs(0))
           n3.mean.value, n3.var.value = stats['mean'], stats['var']
-          n3.scale.value, n3.bias.value = jnp.asarray(scale, jnp.float32), jnp.asarray(bias, jnp.float32)
+          if us:
+            n3.scale.value = jnp.asarray(scale, jnp.float32)
+          if ub:
+            n3.bias.value = jnp.asarray(bias, jnp.float32)
           y3 = np.asarray(n3(xj, use_running_average=False), np.float64)
           if (trial != 2 and not np.allclose(y3, y, rtol=1e-5, atol=1e-5)) or not np.allclose(np.asarray(n3.mean.value), gm, rtol=1e-5, atol=1e-5) \
              or not np.allclose(np.asarray(n3.var.value), gv, rtol=1e-4, atol=1e-4):
